@@ -223,6 +223,11 @@ func rsSnapshot(a *Association, side int, sid uint16, tr *rsTracker) rsSnap {
 	}
 	sort.Slice(sn.reqs, func(i, j int) bool { return sn.reqs[i].rsn < sn.reqs[j].rsn })
 	rsReqList(&sb, sn.reqs)
+	if p, ok := a.performedResetRSN[sid]; ok {
+		fmt.Fprintf(&sb, " 1 %d", p)
+	} else {
+		fmt.Fprintf(&sb, " 0 0")
+	}
 	a.tReconfig.mutex.Lock()
 	sn.nRtos, sn.trun = a.tReconfig.nRtos, a.tReconfig.state == rtxTimerStarted
 	a.tReconfig.mutex.Unlock()
@@ -1924,6 +1929,8 @@ func rsWitness(t *testing.T, label string, il int, st *rsStats, script func(s *s
 
 // TestVerifScenResetWitness replays, on the real associations, the two histories of
 // coq/proofs/ResetProofs.v (rs_stale_request_history, rs_late_response_history).
+// Before /repo fd7385c and a186bb2 they ended with the keys stale-request-resets-new-incarnation (D24) and
+// late-response-rewinds-open-stream (D25); now the reader of the new incarnation must keep reading.
 func TestVerifScenResetWitness(t *testing.T) {
 	rsMaybeRecord(t, "/tmp/verif_reset_witness.trace", func() { rsScenWitness(t) })
 }
